@@ -76,7 +76,7 @@ def _scenario(beh, stream, kind, seed, flight="app"):
         first = [r.idx for r in c.records if r.kind == "APP" and r.d == "s"][0]
     else:
         first = [r.idx for r in c.records if r.kind == "SH"][0]
-    cd["sched"] = dict(dir="s", first_rec=first, cells=list(stream), hist=beh["hist"])
+    cd["sched"] = dict(dir="s", first_rec=first, cells=list(stream), hist=beh["hist"], released=beh.get("released"), garbage=beh.get("garbage"))
     # sequence-number wrap position: spec key = (isn + cell) % Mod  ->  concrete ISN so that 2^32 falls on that cell
     mod, isn = beh.get("mod", 0), beh.get("isn", 0)
     total_cells = sum(5 + b for b in stream)
@@ -109,7 +109,18 @@ def _replay_one(job):
                 for d in "cs" if got[d] != c.truth(d))
     rel = [(e["dir"], e["len"]) for e in res.events if e.get("ev") == "release"]
     segs = [e for e in res.events if e.get("ev") == "seg"]
-    return dict(ok=ok, why=why, kf=kf, sc=sc, nrel=len(rel), nseg=len(segs),
+    # in a known-finding world the implementation-shaped model predicts the ORDER in which the flight's records are handed on: the run is
+    # attributed to the finding only if the release events show exactly that order (anything else is a different violation)
+    sch = sc["conns"][0]["sched"]
+    as_model = None
+    if kf and sch.get("released") is not None and not sch.get("garbage"):
+        d = sch["dir"]
+        lens = [len(r.raw) for r in c.records if r.d == d]
+        start = sum(1 for r in c.records[:sch["first_rec"]] if r.d == d)
+        want = lens[:start] + [lens[start + k - 1] for k in sch["released"]]
+        seen = [ln for dd, ln in rel if dd == d]
+        as_model = seen[:len(want)] == want and (len(sch["released"]) == len(sch["cells"]) or len(seen) == len(want))
+    return dict(ok=ok, why=why, kf=kf, sc=sc, nrel=len(rel), nseg=len(segs), as_model=as_model,
                 events=[e for e in res.events if e.get("ev") in ("seg", "feed", "release")],
                 framing={d: [len(r.raw) for r in c.records if r.d == d] for d in "cs"},
                 base={d: None for d in "cs"})
@@ -200,6 +211,9 @@ def run(chk):
                 kf = "KF_GapAccept"
             elif "wrap" in r["kf"]:
                 kf = "KF_SeqWrap"
+            if kf and r["as_model"] is False:
+                kf = None
+                r["why"] += " -- and the records were NOT handed on in the order the model predicts for the known finding"
             chk.violation(r["why"], dict(scenario=r["sc"], why=r["why"], kf_steps=r["kf"]), kf_key=kf)
         if r["events"]:
             traces.append(dict(framing=r["framing"], events=r["events"], kf=bool(r["kf"])))
